@@ -298,6 +298,10 @@ def run(ctx):
     tr_err = translate_all.run(strict=False, only=["block"])
     ctx.source_hash("sigpy/block.py", "sigpy/util.py")
     ctx.obligation("translate:sigpy/block.py", not tr_err)
+    # tie by translation (DESIGN 2.8): gen/Gen_util.v is regenerated from util.py (translate_all job "util") and compiled; its
+    # lemmas gen_<f>_ok state that resize / flip / circshift / downsample / upsample as written equal model/Rearrange.v
+    from tools import translate_util
+    tie_broken = translate_util.tie(ctx)    # obligations "translate:sigpy/util.py (...)", "tie:generated == hand model (...)"
     proof_ok = False
     if tr_err:
         ctx.notes.append("translator failed closed: %s" % tr_err)
@@ -393,11 +397,11 @@ def run(ctx):
                       {"kind": "correspondence", "broken": "corr:" + c["op"], "case": c, "input": d["x"].tolist(),
                        "observed": d["y"].tolist(), "closed_form": d["ref"].tolist()},
                       found_input=not agree, signature="C09:" + cls)
-    if not proof_ok or tr_err or not corr_ok:
-        # a proof obligation / the translator broke and no failing input was exhibited above
+    if not proof_ok or tr_err or not corr_ok or tie_broken:
+        # a proof obligation / a translator / the tie generated == hand model broke and no failing input was exhibited above
         if not ctx.violations:
-            broken = getattr(ctx, "broken_proof", {"theorem": "translate:sigpy/block.py" if tr_err else "corr:coq-run",
-                                                   "log": str(tr_err)})
+            broken = getattr(ctx, "broken_proof", tie_broken or {"theorem": "translate:sigpy/block.py" if tr_err else "corr:coq-run",
+                                                                 "log": str(tr_err)})
             ctx.violation("proof obligation no longer checks: %s" % broken.get("theorem"),
                           {"kind": "proof", "broken": broken}, found_input=False, signature="C09:proof")
     ctx.trusted += TRUSTED
@@ -442,9 +446,12 @@ def replay(obj):
 TRUSTED = [
     "Coq 8.16.1 kernel + vm_compute (no native_compute, no extraction)",
     "tools/translate_loops.py (Python ast -> LoopIR) and LoopIR.exec as the reading of numba `for ... in range`",
-    "hand models coq/model/Rearrange.v and Block.v wrappers, tied by this run's exact correspondence",
+    "hand models coq/model/Rearrange.v and Block.v wrappers, tied by this run's exact correspondence; Rearrange.v also by "
+    "gen/Gen_util.v: the util functions regenerated from the source text on every run (tools/translate_util.py) with lemmas "
+    "gen_<f>_ok : generated = hand model; trusted there: the translator's reading of the accepted Python fragment (notes/translate_util.md)",
     "numpy basic slicing / roll / reshape semantics as modelled in Rearrange.v",
 ]
 PROVED = ["see coq/props/Prop_C09.v (theorem list in obligation_list)"]
 VALIDATED = [
-             "util.resize/flip/circshift/downsample/upsample: model == implementation by correspondence"]
+             "util.resize/flip/circshift/downsample/upsample: model == implementation by correspondence "
+             "(and model == translated source text, gen/Gen_util.v)"]
